@@ -28,9 +28,10 @@ Verdict(e) ==
                     ELSE "fine"]
 
 (* the state is <<0, line number, <<>>>> - Schema's variable `row` is reused as the cursor *)
-TInit == row = <<0, 1, <<>>>>
+TInit == row = <<0, 1, <<>>>> /\ ana = <<>>
 TNext == /\ row[2] <= Len(Log)
          /\ PrintT(<<"VERDICT", ToJson(Verdict(Log[row[2]]))>>)
          /\ row' = <<0, row[2] + 1, <<>>>>
-TSpec == TInit /\ [][TNext]_row
+         /\ UNCHANGED ana
+TSpec == TInit /\ [][TNext]_<<row, ana>>
 =============================================================================
